@@ -1243,5 +1243,135 @@ proof fn lemma_blob_roundtrip(key: Seq<u8>, seqno: u64, value: Seq<u8>, ul: u32)
     assert(f.subrange(38, 38 + key.len() as int) =~= key);
 }
 
+// ---------------- vlog::Accessor::get (src/vlog/accessor.rs) ----------------
+/// ghost: the bytes of blob file `id` of tree `tree` (blob files are immutable once written)
+uninterp spec fn blob_file_bytes(tree: TreeId, id: BlobFileId) -> Seq<u8>;
+/// v is the checksummed payload the handle addresses in its blob file (for a key of length klen)
+spec fn blob_of(tree: TreeId, vh: ValueHandle, klen: int, v: Seq<u8>) -> bool {
+    let total = vh.on_disk_size as int + 38 + klen;
+    vh.offset + total <= blob_file_bytes(tree, vh.blob_file_id).len()
+    && ({ let frame = blob_file_bytes(tree, vh.blob_file_id).subrange(vh.offset as int, vh.offset + total);
+          v == frame.skip(38 + klen) && blob_frame_ok(frame, v) })
+}
+/// cache invariant for blobs: a cached blob is a verified payload of the frame it is filed under (for some key length)
+spec fn blob_entry_ok(k: CacheKey, it: Item) -> bool {
+    k.0 == 1 ==> it is Blob && exists|klen: int, size: u32| #[trigger] blob_of(k.1, ValueHandle { blob_file_id: k.2, offset: k.3, on_disk_size: size }, klen, it->Blob_0@)
+}
+spec fn blob_cache_ok(m: Map<CacheKey, Item>) -> bool { well_tagged(m) && forall|k: CacheKey| #[trigger] m.contains_key(k) ==> blob_entry_ok(k, m[k]) }
+
+/// version::BlobFileList: the blob files of the version, by id; a listed file is the blob file with that id of this tree
+struct BlobFileList { ghost ids: Set<BlobFileId> }
+impl BlobFileList {
+    #[verifier::external_body]
+    fn get(&self, key: BlobFileId) -> (r: Option<&BlobFileH>) ensures r is Some ==> self.ids.contains(key) && r->Some_0.id == key, r is None ==> !self.ids.contains(key) { unimplemented!() }
+}
+/// a blob file handle (vlog::BlobFile) as the accessor uses it
+struct BlobFileH { id: BlobFileId, fa: BlobFa, bf: BlobFile }
+impl BlobFileH {
+    fn id(&self) -> (r: BlobFileId) ensures r == self.id { self.id }
+    fn file_accessor(&self) -> (r: &BlobFa) ensures r == &self.fa { &self.fa }
+    fn as_blob_file(&self) -> (r: &BlobFile) ensures r == &self.bf { &self.bf }
+}
+/// FileAccessor of a blob file (keying: unit fd_table, C11.6): hands out only descriptors registered for this blob file
+struct BlobFa { p: u8 }
+impl BlobFa {
+    #[verifier::external_body]
+    fn access_for_blob_file(&self, id: &GlobalTableId) -> (r: Option<Arc<File>>) ensures r is Some ==> r->Some_0.content() == blob_file_bytes(id.0, id.1) { unimplemented!() }
+    #[verifier::external_body]
+    fn insert_for_blob_file(&self, id: GlobalTableId, fd: Arc<File>) requires fd.content() == blob_file_bytes(id.0, id.1) { unimplemented!() }
+}
+/// `GlobalTableId::from((tree, id))` (src/table/id.rs, verified in unit table_recover, C11.7)
+#[verifier::external_body] fn gid_of(tree: TreeId, id: TableId) -> (r: GlobalTableId) ensures r == GlobalTableId(tree, id) { unimplemented!() }
+/// `base_path.join(vhandle.blob_file_id.to_string())`: the path of blob file `id` of the tree rooted here
+#[verifier::external_body] struct BlobPath { p: u8 }
+impl Path {
+    uninterp spec fn tree_of(&self) -> TreeId;
+    #[verifier::external_body] fn join_blob(&self, id: BlobFileId) -> (r: BlobPath) ensures r.names() == (self.tree_of(), id) { unimplemented!() }
+}
+impl BlobPath { uninterp spec fn names(&self) -> (TreeId, BlobFileId); }
+impl File {
+    #[verifier::external_body]
+    fn open_blob(path: BlobPath) -> (r: Result<File, Error>) ensures r is Ok ==> r->Ok_0.content() == blob_file_bytes(path.names().0, path.names().1) { unimplemented!() }
+}
+struct Accessor<'a>(&'a BlobFileList);
+impl Slice { }
+
+impl<'a> Reader<'a> {
+//@ FROM src/vlog/blob_file/reader.rs :: impl < 'a > Reader < 'a > :: fn new :: OBL C10.10
+    fn new(blob_file: &'a BlobFile, file: &'a File) -> /*+*/(r:/*-*/ Self/*+*/) ensures r.blob_file == blob_file, r.file == file/*-*/ {
+        Self { blob_file, file }
+    }
+//@ END
+}
+
+impl<'a> Accessor<'a> {
+//@ FROM src/vlog/accessor.rs :: impl < 'a > Accessor < 'a > :: fn get :: OBL C10.10, C08.13
+//@ SUBST `crate :: Result < Option < UserValue > >` ==> `Result<Option<UserValue>, Error>`
+//@ SUBST `cache . get_blob ( $1 )` ==> `cache.get_blob($1, Tracked(fx))`
+//@ SUBST `cache . insert_blob ( $1 )` ==> `cache.insert_blob($1, Tracked(fx))`
+//@ SUBST `File :: open ( base_path . join ( vhandle . blob_file_id . to_string ( ) ) , ) ?` ==> `File::open_blob(base_path.join_blob(vhandle.blob_file_id))?`
+//@ SUBST `Reader :: new ( blob_file , & file )` ==> `Reader::new(blob_file.as_blob_file(), &file)`
+//@ SUBST `GlobalTableId :: from ( ( tree_id , blob_file . id ( ) ) )` ==> `gid_of(tree_id, blob_file.id())`
+    fn get(
+        &self,
+        tree_id: TreeId,
+        base_path: &Path,
+        key: &[u8],
+        vhandle: &ValueHandle,
+        cache: &Cache,
+        /*+*/Tracked(fx): Tracked<&mut CacheState<CacheKey, Item>>/*-*/
+    ) -> /*+*/(r:/*-*/ Result<Option<UserValue>, Error>/*+*/)
+        requires blob_cache_ok(old(fx).map), base_path.tree_of() == tree_id, vhandle.on_disk_size as int + 38 + key@.len() <= usize::MAX
+        ensures blob_cache_ok(final(fx).map),
+            // what is served is the checksummed payload of the addressed frame - from the file just verified, or from the cache
+            // where only such payloads are filed
+            r is Ok && r->Ok_0 is Some ==> exists|klen: int, size: u32| #[trigger] blob_of(tree_id, ValueHandle { blob_file_id: vhandle.blob_file_id, offset: vhandle.offset, on_disk_size: size }, klen, r->Ok_0->Some_0@),
+            r is Ok && r->Ok_0 is None ==> !self.0.ids.contains(vhandle.blob_file_id),/*-*/
+    {
+        if let Some(value) = cache.get_blob(tree_id, vhandle, Tracked(fx)) {
+            /*+*/proof { assert(blob_entry_ok(blob_key(tree_id, vhandle.blob_file_id, vhandle.offset), old(fx).map[blob_key(tree_id, vhandle.blob_file_id, vhandle.offset)])); }/*-*/
+            return Ok(Some(value));
+        }
+
+        let Some(blob_file) = self.0.get(vhandle.blob_file_id) else {
+            return Ok(None);
+        };
+
+        let bf_id = gid_of(tree_id, blob_file.id());
+
+        let (file, fd_cache_miss) =
+            if let Some(cached_fd) = blob_file.file_accessor().access_for_blob_file(&bf_id) {
+                (cached_fd, false)
+            } else {
+                let file = Arc::new(File::open_blob(base_path.join_blob(vhandle.blob_file_id))?);
+                (file, true)
+            };
+
+        let value = Reader::new(blob_file.as_blob_file(), &file).get(key, vhandle)?;
+        /*+*/let ghost m0 = fx.map;/*-*/
+        cache.insert_blob(tree_id, vhandle, value.clone(), Tracked(fx));
+        /*+*/proof {
+            let k = blob_key(tree_id, vhandle.blob_file_id, vhandle.offset);
+            assert((*file).content() == blob_file_bytes(tree_id, vhandle.blob_file_id));
+            assert(blob_of(tree_id, ValueHandle { blob_file_id: vhandle.blob_file_id, offset: vhandle.offset, on_disk_size: vhandle.on_disk_size }, key@.len() as int, value@));
+            let c = fx.map[k]->Blob_0;
+            assert(c@ == value@);
+            assert(blob_of(k.1, ValueHandle { blob_file_id: k.2, offset: k.3, on_disk_size: vhandle.on_disk_size }, key@.len() as int, c@));
+            assert forall|k2: CacheKey| #[trigger] fx.map.contains_key(k2) implies blob_entry_ok(k2, fx.map[k2]) by {
+                if k2 != k { assert(m0.contains_key(k2)); }
+            }
+        }/*-*/
+
+        if fd_cache_miss {
+            blob_file.file_accessor().insert_for_blob_file(bf_id, file);
+        }
+        /*+*/proof { assert(blob_of(tree_id, ValueHandle { blob_file_id: vhandle.blob_file_id, offset: vhandle.offset, on_disk_size: vhandle.on_disk_size }, key@.len() as int, value@));
+            assert(Ok::<Option<UserValue>, Error>(Some(value))->Ok_0->Some_0@ == value@); }/*-*/
+
+        Ok(Some(value))
+    }
+//@ END
+}
+
 }
 fn main() {}
